@@ -320,12 +320,14 @@ impl SubscriptionActor {
 
             #[cfg(deltio_verif)]
             crate::verif::point("subscription.delete.detached");
-            delegate.delete(&name);
+
+            // Unregister the subscription from push. This has to happen while the name
+            // is still taken: once it is free, a new subscription may be created under
+            // it, whose push registration must not be removed by this deletion.
+            push_registry.set(name.clone(), None);
             #[cfg(deltio_verif)]
             crate::verif::point("subscription.delete.unregistered");
-
-            // Unregister the subscription from push.
-            push_registry.set(name, None);
+            delegate.delete(&name);
 
             // This also stops the actor.
             observer.notify_deleted();
